@@ -576,6 +576,21 @@ class Gen:
         self.add(mk_struct("Segment", "named", [mk_field("a", ("named", "Point2", [])), mk_field("b", ("named", "Point", [("leaf", "i32")])),
                                                 mk_field("o", ("named", "Origin", [])), mk_field("c", ("named", "Color", []))],
                            export_to="geo/sub/../geometry.ts", flatten_ok=False, no_ref=True))
+        # list-form doc attributes (`#[doc(hidden)]`, `#[doc(alias = "..")]`) are legal on items and fields and carry no documentation (C16)
+        self.add(mk_struct("DocListForm", "named", [mk_field("a", ("leaf", "i32"), docs=[" kept"], doc_alias=True), mk_field("b", ("named", "Foo", []), doc_alias=True)],
+                           docs=[" documented"], doc_list=True, flatten_ok=False, no_ref=True))
+        self.add(mk_enum("DocListFormE", [mk_variant("A", "unit", []), mk_variant("B", "named", [mk_field("x", ("leaf", "bool"), doc_alias=True)])],
+                         tagging=("internal", "t"), doc_list=True, no_ref=True))
+        # two types in one file importing different names from one other file: the merged import line is the union (C03)
+        self.add(mk_struct("DepA2", "named", [mk_field("x", ("leaf", "i32"))], export_to="merged/deps2.ts", flatten_ok=False, no_ref=True))
+        self.add(mk_struct("DepB2", "named", [mk_field("y", ("leaf", "bool"))], export_to="merged/deps2.ts", flatten_ok=False, no_ref=True))
+        self.add(mk_struct("UseA2", "named", [mk_field("a", ("named", "DepA2", []))], export_to="merged/uses2.ts", flatten_ok=False, no_ref=True))
+        self.add(mk_struct("UseB2", "named", [mk_field("b", ("vec", ("named", "DepB2", [])))], export_to="merged/uses2.ts", flatten_ok=False, no_ref=True))
+        self.add(mk_struct("RootAB2", "named", [mk_field("a", ("named", "UseA2", [])), mk_field("b", ("option", ("named", "UseB2", [])))], flatten_ok=False, no_ref=True))
+        # a zero-length array of a named type: its text `[]` mentions nothing, so nothing may be imported for it (C03)
+        self.add(mk_struct("ZeroArr", "named", [mk_field("none", ("array", 0, ("named", "Foo", []))),
+                                                mk_field("maybe", ("option", ("array", 0, ("named", "Foo", [])))), mk_field("n", ("leaf", "u8"))],
+                           flatten_ok=False, no_ref=True))
         self.add(mk_struct("KfOpt", "named", [mk_field("x", ("param", 0))], params=[("T", None)], optional_fields=True,
                            flatten_ok=False, no_ref=True))
         # the non-nullable spelling takes the field type through `<T as TS>::OptionInnerType`: the impl needs that bound (fix 9c750a6)
